@@ -680,6 +680,12 @@ theorem pyBind_final (s : Sig) (hwf : s.wf = true) (kw : KW) (va : List V)
 
 
 
+instance instDecEqExcept {ε α : Type} [DecidableEq ε] [DecidableEq α] : DecidableEq (Except ε α)
+  | .ok a, .ok b => if h : a = b then isTrue (h ▸ rfl) else isFalse (fun e => by cases e; exact h rfl)
+  | .error a, .error b => if h : a = b then isTrue (h ▸ rfl) else isFalse (fun e => by cases e; exact h rfl)
+  | .ok _, .error _ => isFalse (fun e => by cases e)
+  | .error _, .ok _ => isFalse (fun e => by cases e)
+
 def toPyE {α : Type} : Except BindErr α → Except PyErr α
   | .ok a => .ok a
   | .error e => .error e.toPy
@@ -1017,5 +1023,275 @@ theorem functorCall_eq (s : Sig) (hwf : s.wf = true) (F : Functor) (n1 n2 : Name
             cases hfa : F.va with
             | none => simp only [Option.getD_none, List.append_nil, pyCall_eq]
             | some xs => simp only [Option.getD_some, pyCall_eq]
+
+
+
+theorem initKw_ok {s : Sig} {vb : Bool} {kws b b' : KW} (h : initKw s vb kws b = .ok b') : b' = b ++ kws := by
+  induction kws generalizing b with
+  | nil => simp only [initKw] at h; cases h; simp
+  | cons p r ih =>
+    obtain ⟨k, v⟩ := p
+    simp only [initKw] at h
+    split at h
+    · cases h
+    · rw [ih h]; simp
+
+theorem nameArgs_ok_inv {s : Sig} {c : Call} {n : Named} (h : nameArgs s c = .ok n) :
+    n.named = s.posNames.zip c.args ++ c.kwargs.filter (fun p => s.names.contains p.1) ∧
+    n.va = c.args.drop s.pos.length ∧
+    n.extra = c.kwargs.filter (fun p => !s.names.contains p.1) ∧
+    (∀ p ∈ c.kwargs, s.names.contains p.1 = true → kget (s.posNames.zip c.args) p.1 = none) ∧
+    (∀ p ∈ c.kwargs, s.names.contains p.1 = false → s.varkw.isSome = true) ∧
+    (n.va ≠ [] → s.varargs.isSome = true) := by
+  unfold nameArgs at h
+  cases hb : bindKw s c.kwargs ⟨s.posNames.zip c.args, c.args.drop s.pos.length, []⟩ with
+  | error e => rw [hb] at h; cases h
+  | ok n' =>
+    rw [hb] at h
+    simp only at h
+    split at h
+    · cases h
+    · rename_i htm
+      cases h
+      obtain ⟨h1, h2, h3, h4, h5⟩ := bindKw_ok hb
+      simp only [List.nil_append] at h3
+      refine ⟨h1, h2, h3, h4, h5, ?_⟩
+      intro hne
+      cases hv : s.varargs with
+      | some vn => rfl
+      | none =>
+        exfalso; apply htm
+        rw [hv]
+        cases hva : n.va with
+        | nil => exact absurd hva hne
+        | cons a r => rfl
+
+theorem built_of_init (s : Sig) (hwf : s.wf = true) (c : Call) (o i : Bool) (F : Functor) (n1 : Named)
+    (hc : c.wf = true) (hav : ∀ p ∈ c.kwargs, s.varargs ≠ some p.1)
+    (hF : functorInit s c o i = .ok F) (hn : nameArgs s c = .ok n1) :
+    Built s F n1 ∧ F.overrideArgs = o ∧ F.ignoreExtraArgs = i := by
+  obtain ⟨hnm, hnva, hnex, hfresh, hvk, _⟩ := nameArgs_ok_inv hn
+  have hcnd : (keys c.kwargs).Nodup := by simpa [Call.wf] using hc
+  have hpn := Sig.wf_pos_nodup hwf
+  have hall := Sig.wf_nodup hwf
+  have hvn : ∀ vn, s.varargs = some vn → vn ∉ s.names := by
+    intro vn hv hmem
+    simp only [Sig.allNames, hv, Option.toList_some, List.append_assoc] at hall
+    exact (List.nodup_append.1 hall).2.2 vn hmem vn (by simp) rfl
+  unfold functorInit at hF
+  simp only at hF
+  split at hF
+  · cases hF
+  · rename_i h1
+    cases hk : initKw s (if c.args.length > s.pos.length then some (c.args.drop s.pos.length) else none).isSome
+        c.kwargs (s.posNames.zip c.args) with
+    | error e => rw [hk] at hF; cases hF
+    | ok bound =>
+      rw [hk] at hF
+      simp only at hF
+      have hbound := initKw_ok hk
+      split at hF
+      · cases hF
+      · split at hF
+        · cases hF
+        · cases hF
+          refine ⟨⟨rfl, ?_, ?_, ?_, ?_, ?_, ?_, ?_⟩, rfl, rfl⟩
+          · -- nodup
+            simp only [hbound]
+            rw [keys_append, List.nodup_append]
+            refine ⟨?_, hcnd, ?_⟩
+            · rw [keys_zip]; exact List.Nodup.sublist (List.take_sublist _ _) hpn
+            · intro a ha b hb e
+              subst e
+              obtain ⟨q, hq, hqe⟩ := exists_of_mem_keys hb
+              have hp : a ∈ s.posNames := by rw [keys_zip] at ha; exact List.mem_of_mem_take ha
+              have := hfresh q hq (by rw [hqe]; exact Sig.pos_sub_names s hp)
+              rw [hqe, kget_eq_none_iff] at this
+              exact this ha
+          · simp only [hbound, List.filter_append]
+            rw [hnm]
+            congr 1
+            rw [List.filter_eq_self]
+            intro p hp
+            exact Sig.pos_sub_names s (List.of_mem_zip hp).1
+          · simp only [hbound, List.filter_append, zip_filter_not_names, List.nil_append]
+            rw [hnex]
+          · intro p hp hnn
+            simp only [hbound] at hp
+            rcases List.mem_append.1 hp with hp | hp
+            · have := Sig.pos_sub_names s (List.of_mem_zip hp).1
+              rw [hnn] at this; cases this
+            · exact hvk p hp hnn
+          · simp only
+            rw [hnva]
+            split
+            · rfl
+            · rename_i hl
+              simp only [Option.getD_none]
+              symm; rw [List.drop_eq_nil_iff]; omega
+          · simp only
+            intro hs
+            split at hs
+            · rename_i hl
+              cases hv : s.varargs with
+              | some vn => rfl
+              | none =>
+                exfalso; apply h1
+                simp [hl, hv]
+            · cases hs
+          · intro p hp
+            simp only [hbound] at hp
+            rcases List.mem_append.1 hp with hp | hp
+            · intro hv
+              exact hvn _ hv (List.mem_append_left _ (List.of_mem_zip hp).1)
+            · exact hav p hp
+
+
+
+theorem mergeKw_disjoint (a r : KW) (hnd : (keys r).Nodup) (hd : ∀ k ∈ keys r, k ∉ keys a) :
+    mergeKw a r = a ++ r := by
+  induction r generalizing a with
+  | nil => simp [mergeKw_nil]
+  | cons p r ih =>
+    obtain ⟨k, v⟩ := p
+    simp only [keys, List.map_cons, List.nodup_cons] at hnd
+    have hk : k ∉ keys a := hd k (by simp [keys])
+    have hks : kset a k v = a ++ [(k, v)] := by
+      clear ih hd
+      induction a with
+      | nil => rfl
+      | cons q a iha =>
+        obtain ⟨k0, v0⟩ := q
+        simp only [keys, List.map_cons, List.mem_cons, not_or] at hk
+        have : ¬ k0 = k := fun e => hk.1 e.symm
+        simp only [kset, this, if_false, List.cons_append]
+        rw [iha hk.2]
+    rw [mergeKw_cons, hks, ih _ hnd.2]
+    · simp
+    · intro k' hk' hmem
+      rw [keys_append] at hmem
+      rcases List.mem_append.1 hmem with h | h
+      · exact hd k' (by simp only [keys, List.map_cons, List.mem_cons]; exact Or.inr hk') h
+      · simp only [keys, List.map_cons, List.map_nil, List.mem_singleton] at h
+        subst h; exact hnd.1 hk'
+
+theorem nameArgs_empty (s : Sig) : nameArgs s Call.empty = .ok ⟨[], [], []⟩ := by
+  simp [nameArgs, Call.empty, bindKw]
+
+theorem mergeNamed_empty_right (n : Named) : mergeNamed n ⟨[], [], []⟩ = n := by
+  cases n; simp [mergeNamed, mergeKw_nil]
+
+theorem functorInit_empty (s : Sig) (o i : Bool) :
+    functorInit s Call.empty o i = .ok ⟨s, [], none, defaultArgsOf s [] none, nonDefaultArgsOf s [] none, o, i⟩ := by
+  simp [functorInit, Call.empty, initKw]
+
+/-- Late binding, error side (patched code): arguments that the language cannot distribute
+over the parameters are refused by the functor as well. -/
+theorem functorCall_late_err (s : Sig) (o : Bool) (F : Functor)
+    (hF : functorInit s Call.empty o false = .ok F) (c : Call) (hc : c.wf = true)
+    (hav : ∀ p ∈ c.kwargs, s.varargs ≠ some p.1) (e : BindErr)
+    (hn : nameArgs s c = .error e) :
+    functorCall true F c none none = .error .typeError := by
+  rw [functorInit_empty] at hF
+  cases hF
+  have hcnd : (keys c.kwargs).Nodup := by simpa [Call.wf] using hc
+  unfold functorCall parseOverrides
+  simp only [Option.getD_none]
+  by_cases htm : (decide (c.args.length > s.pos.length) && s.varargs.isNone) = true
+  · simp [htm]
+  · have htm' : (decide (c.args.length > s.pos.length) && s.varargs.isNone && !false) = false := by
+      cases h : (decide (c.args.length > s.pos.length) && s.varargs.isNone)
+      · rfl
+      · exact absurd h htm
+    simp only [htm', Bool.false_eq_true, if_false]
+    have hpl : posLoop (Functor.specified ⟨s, [], none, defaultArgsOf s [] none, nonDefaultArgsOf s [] none, o, false⟩) o
+        (s.posNames.zip c.args) [] = .ok (mergeKw [] (s.posNames.zip c.args)) := by
+      apply posLoop_ok
+      right; intro p _
+      simp only [Functor.specified, keys, List.map_nil, List.nil_append]
+      cases s.varargs <;> rfl
+    simp only [hpl]
+    by_cases hbad : ∃ p ∈ c.kwargs, (keys (s.posNames.zip c.args)).contains p.1 = true ∨
+        (keep s p = false ∧ false = false) ∨
+        ((Functor.specified ⟨s, [], none, defaultArgsOf s [] none, nonDefaultArgsOf s [] none, o, false⟩).contains p.1 = true ∧ o = false)
+    · rw [kwLoop_err s _ _ o false c.kwargs _ hbad]
+    · exfalso
+      -- no bad keyword: the keyword phase of the language succeeds, and so does the arity check
+      have hgood : ∀ p ∈ c.kwargs, (keys (s.posNames.zip c.args)).contains p.1 = false ∧ keep s p = true := by
+        intro p hp
+        constructor
+        · cases h : (keys (s.posNames.zip c.args)).contains p.1
+          · rfl
+          · exact absurd ⟨p, hp, Or.inl h⟩ hbad
+        · cases h : keep s p
+          · exact absurd ⟨p, hp, Or.inr (Or.inl ⟨h, rfl⟩)⟩ hbad
+          · rfl
+      have hb := bindKw_of_fresh (s := s) (kws := c.kwargs)
+        (n := ⟨s.posNames.zip c.args, c.args.drop s.pos.length, []⟩) hcnd
+        (fun p hp _ => by
+          rw [kget_eq_none_iff]; exact contains_false_iff.1 (hgood p hp).1)
+        (fun p hp hnn => by
+          have := (hgood p hp).2
+          simp only [keep, hnn, Bool.false_or] at this
+          exact ⟨this, rfl⟩)
+      unfold nameArgs at hn
+      rw [hb] at hn
+      simp only at hn
+      split at hn
+      · rename_i h
+        apply htm
+        simp only [Bool.and_eq_true, Bool.not_eq_true', List.isEmpty_eq_false_iff] at h
+        simp only [Bool.and_eq_true, decide_eq_true_eq]
+        refine ⟨?_, h.2⟩
+        have := h.1
+        rw [Ne, List.drop_eq_nil_iff] at this
+        omega
+      · cases hn
+
+
+
+theorem nameArgs_nodup {s : Sig} {c : Call} {n : Named} (hwf : s.wf = true) (hc : c.wf = true)
+    (h : nameArgs s c = .ok n) : (keys n.named).Nodup ∧ (keys n.extra).Nodup := by
+  obtain ⟨hnm, _, hnex, hfresh, _, _⟩ := nameArgs_ok_inv h
+  have hcnd : (keys c.kwargs).Nodup := by simpa [Call.wf] using hc
+  have hpn := Sig.wf_pos_nodup hwf
+  constructor
+  · rw [hnm, keys_append, List.nodup_append]
+    refine ⟨?_, ?_, ?_⟩
+    · rw [keys_zip]; exact List.Nodup.sublist (List.take_sublist _ _) hpn
+    · rw [keys_filter (fun k => s.names.contains k)]
+      exact List.Nodup.sublist List.filter_sublist hcnd
+    · intro a ha b hb e
+      subst e
+      obtain ⟨q, hq, hqe⟩ := exists_of_mem_keys hb
+      rw [List.mem_filter] at hq
+      have := hfresh q hq.1 hq.2
+      rw [hqe, kget_eq_none_iff] at this
+      exact this ha
+  · rw [hnex, keys_filter (fun k => !s.names.contains k)]
+    exact List.Nodup.sublist List.filter_sublist hcnd
+
+theorem mergeNamed_empty_left {n : Named} (h1 : (keys n.named).Nodup) (h2 : (keys n.extra).Nodup) :
+    mergeNamed ⟨[], [], []⟩ n = n := by
+  cases n with
+  | mk named va extra =>
+    simp only [mergeNamed]
+    rw [mergeKw_disjoint [] named h1 (fun _ _ h => by simp [keys] at h),
+        mergeKw_disjoint [] extra h2 (fun _ _ h => by simp [keys] at h)]
+    cases va <;> simp
+
+theorem conflicts_empty_left (n : Named) : conflicts ⟨[], [], []⟩ n = false := by
+  simp [conflicts, khas, kget]
+
+theorem conflicts_empty_right (n : Named) : conflicts n ⟨[], [], []⟩ = false := by
+  simp [conflicts]
+
+theorem pyCall_of_named {s : Sig} {c : Call} {n : Named} (h : nameArgs s c = .ok n) :
+    pyCall s c = toPyE (complete s n) := by
+  rw [pyCall_eq]; unfold pyBind; rw [h]
+
+theorem pyCall_of_named_err {s : Sig} {c : Call} {e : BindErr} (h : nameArgs s c = .error e) :
+    pyCall s c = .error .typeError := by
+  rw [pyCall_eq]; unfold pyBind; rw [h]; rfl
 
 end Pg.C18
